@@ -72,6 +72,8 @@ pub struct ConnOp {
     pub marked: bool,
     /// requests on this connection (1 or 2, pipelined)
     pub reqs: &'static [(Kind, Beh)],
+    /// the transport reports no peer address (unix socket, in-memory transport)
+    pub no_peer: bool,
 }
 
 pub fn alphabet() -> Vec<ConnOp> {
@@ -85,7 +87,14 @@ pub fn alphabet() -> Vec<ConnOp> {
     let mut v = vec![];
     for marked in [true, false] {
         for s in SHAPES {
-            v.push(ConnOp { marked, reqs: s });
+            v.push(ConnOp { marked, reqs: s, no_peer: false });
+        }
+    }
+    // connections without a peer address (two request shapes): a recycled request head must not
+    // keep the address of the connection that used it before
+    for marked in [true, false] {
+        for s in [SHAPES[0], SHAPES[3]] {
+            v.push(ConnOp { marked, reqs: s, no_peer: true });
         }
     }
     v
@@ -93,7 +102,7 @@ pub fn alphabet() -> Vec<ConnOp> {
 
 fn op_name(op: &ConnOp) -> String {
     let r: Vec<String> = op.reqs.iter().map(|(k, b)| format!("{k:?}.{b:?}")).collect();
-    format!("{}[{}]", if op.marked { "conn+data" } else { "conn" }, r.join(","))
+    format!("{}{}[{}]", if op.marked { "conn+data" } else { "conn" }, if op.no_peer { "-nopeer" } else { "" }, r.join(","))
 }
 
 fn request_bytes(op: &ConnOp, pos: usize) -> Vec<u8> {
@@ -139,7 +148,7 @@ where
     let out = Rc::new(RefCell::new(Vec::new()));
     let io = MemIo { input: request_bytes(op, pos), pos: 0, out: out.clone(), marker: marker_of(op, pos) };
     let peer: SocketAddr = format!("10.9.0.{}:{}", pos + 1, 4000 + pos).parse().unwrap();
-    let mut fut = Box::pin(svc.call((io, Some(peer))));
+    let mut fut = Box::pin(svc.call((io, (!op.no_peer).then_some(peer))));
     let w = futures_util::task::noop_waker_ref();
     let mut cx = Context::from_waker(w);
     let mut done = false;
@@ -391,7 +400,7 @@ pub fn run(tier: &str) -> ConnResult {
         }
         res.distinct_nontrivial = nontrivial.len() as u64;
         res.rule = format!(
-            "all {} sequences of {len} connections over {} connection shapes ({{with, without}} on_connect_ext data x 5 request lists incl. one pipelined pair) through one HttpService::h1 instance; non-trivial = a request object address was used earlier by a connection with different connection data",
+            "all {} sequences of {len} connections over {} connection shapes ({{with, without}} on_connect_ext data x 5 request lists incl. one pipelined pair, plus 4 shapes whose transport reports no peer address) through one HttpService::h1 instance; non-trivial = a request object address was used earlier by a connection with different connection data",
             total,
             alpha.len()
         );
